@@ -386,7 +386,11 @@ def cpp(n):
         return "&vs::f%s%d" % (n[1], n[2])
     if k == "M":
         # directly-trackable objects bind a method inherited from a non-trackable base (b*), the others their own (m*)
-        return "sigc::mem_fun(%s, &%s::%s%s%d)" % (cpp_obj(n[3]), CLS_NAME[n[3][0]], "b" if n[3][0] == "d" else "m", n[1], n[2])
+        # … and cycle through the four cv-qualified overloads of mem_fun (by arity and result kind)
+        pre = "m"
+        if n[3][0] == "d":
+            pre = ("b", "bc", "bv", "bw")[(n[2] + (1 if n[1] == "I" else 0) + int(n[3][1:] or 0)) % 4]
+        return "sigc::mem_fun(%s, &%s::%s%s%d)" % (cpp_obj(n[3]), CLS_NAME[n[3][0]], pre, n[1], n[2])
     if k == "S":
         return "p.%s<%s>(%s).make_slot()" % (n[3][0], SIG_CPP[(n[1], n[2])], n[3][1:])
     if k == "bind":
@@ -429,8 +433,10 @@ def cpp_case(cid, sig, pool, node):
     sigcpp = SIG_CPP[(ret, n)]
     if node[0] == "C":
         body = ("vs::case_body_connect<%s>(%d, \"%s\", {%s}, [](sigc::signal<%s>& sg, vs::Pool& p) "
-                "{ return sigc::signal_connect(sg, %s, &%s::m%s%d); });"
-                % (sigcpp, cid, spec, vs_, sigcpp, cpp_obj(node[3]), CLS_NAME[node[3][0]], node[1], node[2]))
+                "{ return sigc::signal_connect(sg, %s, &%s::%s%s%d); });"
+                % (sigcpp, cid, spec, vs_, sigcpp, cpp_obj(node[3]), CLS_NAME[node[3][0]],
+                   "k" if (cid + node[2]) % 2 else "m",      # const-method and non-const-method overloads alternate
+                   node[1], node[2]))
     else:
         body = ("vs::case_body<%s>(%d, \"%s\", {%s}, [](vs::Pool& p) { return %s; });"
                 % (sigcpp, cid, spec, vs_, cpp(node)))
